@@ -183,7 +183,7 @@ def run_case(spec):
 
 def strategy():
     from hypothesis import strategies as st
-    titles = st.sampled_from(['Sheet1', 'Data', 'Лист', 'My Sheet', 'a-b', 'X', 'Summary 2024', 'Z9', 'q.r', 'T', "it's", 'a!b', '数据'])
+    titles = st.sampled_from(['Sheet1', 'Data', 'Лист', 'My Sheet', 'a-b', 'X', 'Summary 2024', 'Z9', 'q.r', 'T', "it's", 'a!b', '数据', '2023', '1', '0', '10'])
     text = st.one_of(st.text(alphabet=st.characters(min_codepoint=32, max_codepoint=0x2fff, blacklist_categories=('Cs', 'Cc', 'Cn'),
                                                       blacklist_characters='￾￿'), min_size=1, max_size=12),
                      st.sampled_from(['abc', ' lead', 'trail ', 'TRUE', '12', '1e5', "it's", 'a"b', 'line1\nline2', 'tab\there', '#N/A', '\\n', '{x}', '%s', '0', '-', "'"]))
@@ -191,8 +191,8 @@ def strategy():
     dt = st.datetimes(min_value=datetime.datetime(1900, 3, 1), max_value=datetime.datetime(9999, 12, 31)).map(
         lambda d: {'$dt': d.replace(microsecond=0).isoformat()})
     d = st.dates(min_value=datetime.date(1900, 3, 1), max_value=datetime.date(9999, 12, 31)).map(lambda x: {'$d': x.isoformat()})
-    value = st.one_of(st.integers(-2 ** 53 + 1, 2 ** 53 - 1), st.integers(-100, 100), st.floats(allow_nan=False, allow_infinity=False, width=64).map(lambda x: float('%.15g' % x)).filter(lambda x: abs(x) < 1e308),
-                      st.sampled_from([0.5, -0.0, 2.0, 1e300, 1e-300, 0.1, 123456789.125]), st.booleans(), text, text, dt, d,
+    value = st.one_of(st.integers(-2 ** 53 + 1, 2 ** 53 - 1), st.integers(-100, 100), st.floats(allow_nan=False, allow_infinity=False, width=64).map(lambda x: float('%.16g' % x)).filter(lambda x: abs(x) < 1e308),
+                      st.sampled_from([0.5, -0.0, 2.0, 1e300, 1e-300, 0.1, 123456789.125, 0.3333333333333333, 3.141592653589793, 434.9999999999999, 0.5208333333333334]), st.booleans(), text, text, dt, d,
                       st.tuples(st.integers(0, 99), st.sampled_from(['+', '*']), st.integers(0, 99)).map(lambda t: f'={t[0]}{t[1]}{t[2]}'))
 
     @st.composite
